@@ -10435,19 +10435,17 @@ impl<'a> Parser<'a> {
     }
 
     fn parse_pattern(&mut self) -> Result<MatchRecognizePattern, ParserError> {
+        let _guard = self.recursion_counter.try_decrease()?;
         let pattern = self.parse_concat_pattern()?;
-        if self.consume_token(&Token::Pipe) {
-            match self.parse_pattern()? {
-                // flatten nested alternations
-                MatchRecognizePattern::Alternation(mut patterns) => {
-                    patterns.insert(0, pattern);
-                    Ok(MatchRecognizePattern::Alternation(patterns))
-                }
-                next => Ok(MatchRecognizePattern::Alternation(vec![pattern, next])),
-            }
-        } else {
-            Ok(pattern)
+        if self.peek_token().token != Token::Pipe {
+            return Ok(pattern);
         }
+        // alternatives are siblings, not nesting: parse them in a loop
+        let mut patterns = vec![pattern];
+        while self.consume_token(&Token::Pipe) {
+            patterns.push(self.parse_concat_pattern()?);
+        }
+        Ok(MatchRecognizePattern::Alternation(patterns))
     }
 
     /// Parse a given table version specifier.
